@@ -620,8 +620,22 @@ pub fn read_bed(c: &Case, bytes: Vec<u8>, out: &mut String) {
 }
 
 /// `wig` / `bed` case: write, keep the bytes as `<outdir>/<id>.bin`, read back.
+fn fnv(bytes: &[u8]) -> u64 {
+    let mut h: u64 = 0xcbf29ce484222325;
+    for b in bytes {
+        h ^= *b as u64;
+        h = h.wrapping_mul(0x100000001b3);
+    }
+    h
+}
+
 pub fn run_write_case(c: &Case, outdir: &Path, out: &mut String) {
     let sink = Sink::new();
+    #[cfg(bigtools_verif)]
+    {
+        let seed: u64 = c.opt_map().get("delay").map(|s| s.parse().unwrap()).unwrap_or(0);
+        bigtools::utils::verif_hooks::set_schedule(seed);
+    }
     let res = if c.kind == "wig" {
         write_wig(c, sink.clone(), outdir)
     } else {
@@ -636,6 +650,9 @@ pub fn run_write_case(c: &Case, outdir: &Path, out: &mut String) {
         std::fs::write(outdir.join(format!("{}.bin", c.id)), &bytes).unwrap();
     }
     writeln!(out, "LEN {}", bytes.len()).unwrap();
+    writeln!(out, "BYTES {} {:016x}", bytes.len(), fnv(&bytes)).unwrap();
+    #[cfg(bigtools_verif)]
+    writeln!(out, "DELAYPOINTS {}", bigtools::utils::verif_hooks::points_passed()).unwrap();
     if res.is_ok() {
         if c.kind == "wig" {
             read_wig(c, bytes, out);
